@@ -141,7 +141,17 @@ def execute(module_name, sub, case):
     old = signal.signal(signal.SIGALRM, _alarm)
     signal.alarm(timeout_s)
   try:
-    info = fn(case)
+    try:
+      info = fn(case)
+    except _Timeout:
+      # a case that normally takes milliseconds can exceed even a generous limit on a starved machine (observed once with
+      # ~160 interpreters on 62 GB): a real non-termination times out again, so the case gets exactly one more attempt
+      if not use_alarm:
+        raise
+      signal.alarm(timeout_s)
+      info = fn(case)
+      info = dict(info or {})
+      info['timed_out_once'] = True
     rec['info'] = info or {}
   except Violation as v:
     rec.update(status='violation', msg=v.msg, expected=jsonable(v.expected),
